@@ -730,6 +730,25 @@ def case_C16(seed):
             viol.append((key, f"{kind} {k}: idx/best {a['idx']}/{a['best']} -> {b['idx']}/{b['best']}, same path: {same_path}",
                          {'case': U.case_repr(case), 'transform': [kind, str(k)], 'a': a, 'b': b}))
             break
+    if not viol and exact and case['cfg'].get('max_lattice_width') is None:
+        # a fine-grained map far from the origin: the same map scaled by 2^-11 (a grid unit of 0.5 becomes 2.4e-4), once near
+        # the origin and once translated by (2^22, -2^23); every coordinate stays exact, positions carry about 1e-9 absolute
+        # rounding at that magnitude (2e-5 of the smallest noise): 1e-3 on the log-probability
+        cs = transform_case(case, 'scale', rnd, -11)
+        ct = transform_case(cs, 'translate', rnd, (2.0 ** 22, -2.0 ** 23))
+        try:
+            _, mts, rs = run_match(cs)
+            _, mtt, rt = run_match(ct)
+            a2, b2 = U.canon(mts, rs), U.canon(mtt, rt)
+            if a2['idx'] != b2['idx'] or not close(a2['best'], b2['best'], 1e-3, 1e-3):
+                if cutoff_knife_edge(case) or a2['near_tie'] or b2['near_tie']:
+                    knife[0] += 1
+                else:
+                    viol.append(('C16:translate-far-changes-result', f"map scaled by 2^-11: idx/best {a2['idx']}/{a2['best']} near the origin -> "
+                                 f"{b2['idx']}/{b2['best']} translated by (2^22, -2^23)",
+                                 {'case': U.case_repr(case), 'transform': ['scale 2^-11, then translate', '(2^22, -2^23)'], 'a': a2, 'b': b2}))
+        except Exception as e:
+            viol.append(('C16:translate-far-raised', f"scaled by 2^-11 and translated by (2^22, -2^23): {e!r}", {'case': U.case_repr(case)}))
     return {'nontrivial': bool(a['states']) and len(a['states']) >= 2, 'violations': viol, 'sample': U.case_repr(case),
             'knife_edge': knife[0]}
 
